@@ -62,7 +62,7 @@ class C02(RunProp):
     def cases(self, rng: random.Random, tier: str) -> Iterable[dict]:
         gens = [lambda: gen.gen_dag_program(rng, max_nodes=8, depth=rng.choice([0, 1, 2])), lambda: gen.gen_gated_cfg(rng),
                 lambda: gen.gen_loop_bounded(rng), lambda: gen.gen_failing_dag(rng), lambda: gen.gen_map_node(rng)]
-        gens = gens * 2 + [lambda: gen_mutex_race(rng)]
+        gens = gens * 2 + [lambda: gen_mutex_race(rng), lambda: gen.gen_map_node(rng, force="raise-multi")]
         while True:
             c = rng.choice(gens)()
             if continue_map_with_failing_items(c["program"]):
